@@ -1011,6 +1011,11 @@ OLE_FORGERIES = {
                        lambda n: _pset([(2, _lpstr("Ztitle")), (0x30, struct.pack("<IIIi", 0x100C, n & 0xFFFFFFFF, 3, 7))])),
     "vector-r8": ("VT_VECTOR|VT_R8 property with n elements declared, one present",
                   lambda n: _pset([(2, _lpstr("Ztitle")), (0x30, struct.pack("<IId", 0x1005, n & 0xFFFFFFFF, 1.0))])),
+    # two cooperating forged fields: a reader that bounds counts by the *declared* section size is fooled by a bogus size
+    "vector-r8-bigsection": ("VT_VECTOR|VT_R8 property with n elements declared, one present, section size field = 0xFFFFFFFF",
+                             lambda n: _pset([(2, _lpstr("Ztitle")), (0x30, struct.pack("<IId", 0x1005, n & 0xFFFFFFFF, 1.0))], section_size=0xFFFFFFFF)),
+    "vector-i8-bigsection": ("VT_VECTOR|VT_I8 property with n elements declared, one present, section size field = 0xFFFFFFFF",
+                             lambda n: _pset([(2, _lpstr("Ztitle")), (0x30, struct.pack("<IIq", 0x1014, n & 0xFFFFFFFF, 1))], section_size=0xFFFFFFFF)),
     "vector-i4": ("VT_VECTOR|VT_I4 property with n elements declared, one present",
                   lambda n: _pset([(2, _lpstr("Ztitle")), (0x30, struct.pack("<IIi", 0x1003, n & 0xFFFFFFFF, 7))])),
 }
